@@ -237,9 +237,23 @@ Fixpoint judge_reuse_cmds (cnt hsh : bool) (p0 : pos) (k : nat) (l : list Z) (ou
           | None => [0; 13; 0]
           | Some (pr, ms) =>
               if negb (valid pr) then [0; 14; i] else
-              match first_illegal pr ms 0 with
-              | Some _ => [0; 15; i]
-              | None =>
+              (* a move list may contain a token the driver has to REFUSE (not even pseudo-legal in the position
+                 reached): the command then describes the position after the moves in front of it (C02: "exactly
+                 the prefix of the move list up to the first token that is not a pseudo-legal move"); a list whose
+                 first unplayable move is pseudo-legal but illegal is outside the generator's contract *)
+              let played : option (list N) :=
+                match first_illegal pr ms 0 with
+                | None => Some ms
+                | Some j =>
+                    let pre := firstn (Z.to_nat j) ms in
+                    match skipn (Z.to_nat j) ms with
+                    | m :: _ => if pseudo_spec (last (spec_hist pr pre) pr) m then None else Some pre
+                    | [] => None
+                    end
+                end in
+              match played with
+              | None => [0; 15; i]
+              | Some ms =>
                   let h := spec_hist pr ms in
                   let attrs := firstn 15 out in
                   match skipn 15 out with
